@@ -440,7 +440,9 @@ def explore(module, hname, cfg, max_paths=200000, max_seconds=3600, timeout_ms=1
         st['decisions'] += len(ctx.trace)
         st['maxdeg'] = max(st['maxdeg'], ctx.maxdeg)
         st['maxdepth'] = max(st['maxdepth'], len(ctx.trace))
-        if done and run.path_obl and (len(st['witnesses']) < witness_cap or rnd.random() < 0.02) and len(st['witnesses']) < 4 * witness_cap:
+        deferred = st['ended'].get('deferred-to-concrete', 0) > st.get('_deferred_seen', 0)
+        st['_deferred_seen'] = st['ended'].get('deferred-to-concrete', 0)
+        if deferred or (done and run.path_obl and (len(st['witnesses']) < witness_cap or rnd.random() < 0.02) and len(st['witnesses']) < 4 * witness_cap):
             try:
                 import z3
                 m = ctx.model
